@@ -65,7 +65,7 @@ func Line(r *rand.Rand, o TextOpts) (string, string) {
 	case x < 76:
 		return pick(r, []string{"héllo wörld", "日本語", "emoji 🎉", "�", "a b", " "}), "utf8-multibyte"
 	case x < 82:
-		return pick(r, []string{"a\xffb", "a\xfeb", "\xc3", "\xe2\x82", "\xf0\x9f", "ok\x80", "\xff\xfe"}), "invalid-utf8"
+		return pick(r, []string{"a\xffb", "a\xfeb", "\xc3", "\xe2\x82", "\xf0\x9f", "ok\x80", "\xff\xfe", "caf\xff au lait", "caf\uFFFD au lait"}), "invalid-utf8"
 	case x < 85:
 		return pick(r, []string{"a\rb", "\rstart", "x\r\ry"}), "cr-mid"
 	case x < 88:
@@ -240,6 +240,18 @@ func pairOnce(r *rand.Rand, s string) (string, string) {
 		}
 		return strings.Join(ls, "\n"), "swap-terminator-escape"
 	case 7:
+		// the replacement character where the other text has an invalid byte (both decode to
+		// U+FFFD), in either direction
+		if i := strings.Index(s, "\uFFFD"); i >= 0 && r.IntN(2) == 0 {
+			return s[:i] + "\xff" + s[i+3:], "replacement-char-vs-invalid-byte"
+		}
+		if r.IntN(2) == 0 {
+			for i := range b {
+				if b[i] >= 0xf8 {
+					return s[:i] + "\uFFFD" + s[i+1:], "replacement-char-vs-invalid-byte"
+				}
+			}
+		}
 		// change only an invalid-UTF-8 byte
 		for i := range b {
 			if b[i] >= 0xf8 {
